@@ -41,9 +41,9 @@ type tailBuffer struct {
 func (b *tailBuffer) Write(p []byte) (int, error) {
 	b.mu.Lock()
 	b.buf = append(b.buf, p...)
-	if len(b.buf) > 16384 {
+	if len(b.buf) > 32768 {
 		// keep head and tail: the head of a Go crash report names the cause
-		head := append([]byte(nil), b.buf[:4096]...)
+		head := append([]byte(nil), b.buf[:12288]...)
 		tail := b.buf[len(b.buf)-8192:]
 		b.buf = append(append(head, []byte("\n...[snip]...\n")...), tail...)
 	}
@@ -89,13 +89,17 @@ func (d *Death) Error() string { return "worker died: " + d.Kind + ": " + d.Deta
 
 func classifyDeath(stderr string, err error, timedOut bool) *Death {
 	detail := stderr
-	if len(detail) > 1500 {
-		detail = detail[:1500]
+	if len(detail) > 12000 {
+		detail = detail[:12000]
 	}
 	switch {
 	case timedOut:
 		return &Death{"timeout", detail}
 	case strings.Contains(stderr, "stack overflow") || strings.Contains(stderr, "goroutine stack exceeds"):
+		return &Death{"stack-overflow", detail}
+	case strings.Contains(stderr, "out of memory") && (strings.Contains(stderr, "runtime.newstack") || strings.Contains(stderr, "runtime.stackalloc") || strings.Contains(stderr, "runtime.copystack")) && inUse(stderr) < 4<<30:
+		// the allocation that failed was a goroutine stack being grown while little memory was in use:
+		// runaway recursion under the address-space limit, not memory exhaustion by the program's data
 		return &Death{"stack-overflow", detail}
 	case strings.Contains(stderr, "out of memory") || strings.Contains(stderr, "cannot allocate memory"):
 		return &Death{"oom", detail}
@@ -110,6 +114,17 @@ func classifyDeath(stderr string, err error, timedOut bool) *Death {
 		}
 	}
 	return &Death{"exit", fmt.Sprintf("%v %s", err, detail)}
+}
+
+// inUse extracts N from the Go runtime's "cannot allocate X-byte block (N in use)" message.
+func inUse(stderr string) uint64 {
+	i := strings.Index(stderr, "-byte block (")
+	if i < 0 {
+		return 0
+	}
+	var n uint64
+	fmt.Sscanf(stderr[i+len("-byte block ("):], "%d", &n)
+	return n
 }
 
 // Do sends one request and waits for the answer (at most timeout). If the
